@@ -917,6 +917,7 @@ LinkLayerSecondaryUnbalanced_run(LinkLayerSecondaryUnbalanced self)
 struct sLinkLayerSecondaryBalanced
 {
     bool expectedFcb; /* expected value of next frame count bit (FCB) */
+    bool lastFrameAcknowledged; /* the last frame with a valid FCB was answered with ACK */
     LinkLayer linkLayer;
     IBalancedApplicationLayer applicationLayer;
     void* appLayerParam;
@@ -927,6 +928,7 @@ LinkLayerSecondaryBalanced_init(LinkLayerSecondaryBalanced self, LinkLayer linkL
                                 IBalancedApplicationLayer applicationLayer, void* appLayerParam)
 {
     self->expectedFcb = true;
+    self->lastFrameAcknowledged = false;
     self->linkLayer = linkLayer;
     self->applicationLayer = applicationLayer;
     self->appLayerParam = appLayerParam;
@@ -955,7 +957,21 @@ LinkLayerSecondaryBalanced_handleMessage(LinkLayerSecondaryBalanced self, uint8_
     if (fcv)
     {
         if (LinkLayerSecondaryBalanced_checkFCB(self, fcb) == false)
+        {
+            /* repeated frame: do not process it again, but repeat the acknowledgement the primary has missed */
+            if (self->lastFrameAcknowledged)
+            {
+                if (self->linkLayer->linkLayerParameters->useSingleCharACK)
+                    SendSingleCharCharacter(self->linkLayer);
+                else
+                    SendFixedFrame(self->linkLayer, LL_FC_00_ACK, self->linkLayer->address, false,
+                                   self->linkLayer->dir, false, false);
+            }
+
             return;
+        }
+
+        self->lastFrameAcknowledged = false;
     }
 
     switch (fc)
@@ -966,6 +982,7 @@ LinkLayerSecondaryBalanced_handleMessage(LinkLayerSecondaryBalanced self, uint8_
         DEBUG_PRINT("SLL - RECV FC 00 - RESET REMOTE LINK\n");
 
         self->expectedFcb = true;
+        self->lastFrameAcknowledged = false;
 
         DEBUG_PRINT("SLL - SEND FC 00 - ACK\n");
 
@@ -980,6 +997,9 @@ LinkLayerSecondaryBalanced_handleMessage(LinkLayerSecondaryBalanced self, uint8_
     case LL_FC_02_TEST_FUNCTION_FOR_LINK:
 
         DEBUG_PRINT("SLL - RECV FC 02 - TEST FUNCTION FOR LINK\n");
+
+        if (fcv)
+            self->lastFrameAcknowledged = true;
 
         DEBUG_PRINT("SLL - SEND FC 00 - ACK\n");
 
@@ -1001,6 +1021,9 @@ LinkLayerSecondaryBalanced_handleMessage(LinkLayerSecondaryBalanced self, uint8_
                                                            userDataLength))
             {
                 DEBUG_PRINT("SLL - SEND FC 00 - ACK\n");
+
+                if (fcv)
+                    self->lastFrameAcknowledged = true;
 
                 if (self->linkLayer->linkLayerParameters->useSingleCharACK)
                     SendSingleCharCharacter(self->linkLayer);
